@@ -24,6 +24,16 @@ def helpers_in(tree, acc):
     return acc
 
 
+def odd_leaf(tree):
+    """does the script have a leaf that is not an ASCII string?"""
+    if not tree:
+        return False
+    if tree.get("k") == "leaf":
+        v = tree.get("v") or {}
+        return v.get("t") != "str" or not v.get("s", "").isascii()
+    return odd_leaf(tree.get("yes")) or odd_leaf(tree.get("no"))
+
+
 def py_spec_entry(ent):
     """mirror of G14.Spec.spec_entry, for labelling a failing case only (the verdict is Coq's)"""
     s = ent.strip(" \t\n\v\f\r")
@@ -179,8 +189,12 @@ def run(ctx):
         groups = {}
         for c in bad["ecases"]["P"]:
             hs = sorted(set(helpers_in(c.get("tree"), [])))
-            key = "eval-%s-differs-from-reference" % (hs[0] if len(hs) == 1 else "script") \
-                if c.get("entry", "fn") in ("fn", "fnx") else "entry-point-rule-differs-from-reference"
+            if c.get("entry", "fn") not in ("fn", "fnx"):
+                key = "entry-point-rule-differs-from-reference"
+            elif odd_leaf(c.get("tree")):
+                key = "eval-result-check-differs-from-reference"      # a non-string / non-ASCII result is in play
+            else:
+                key = "eval-%s-differs-from-reference" % (hs[0] if len(hs) == 1 else "script")
             groups.setdefault(key, []).append(c)
         for key, cs in sorted(groups.items()):
             c = smallest(cs)
